@@ -196,11 +196,19 @@ fn sequence_doc_with(
         if index == 0 {
             first = item;
         } else {
+            // A bare newline is not always a separator: where the next step would be read as a
+            // continuation of the previous one, the comma is kept in the broken form too.
+            let comma = needs_explicit_comma(&sequence.chains[index - 1], chain);
             // Set a tall step off from its neighbours with a blank line (two newlines). `collapse_
             // blanks` caps a run at one, so this composes with any blank the author already left.
             if prev_tall || tall {
+                if comma {
+                    rest.push(pretty::text(","));
+                }
                 rest.push(pretty::hardline());
                 rest.push(pretty::hardline());
+            } else if comma {
+                rest.push(pretty::concat(vec![pretty::text(","), pretty::line()]));
             } else {
                 rest.push(separator.clone());
             }
@@ -212,6 +220,20 @@ fn sequence_doc_with(
         first,
         pretty::nest(continuation_nest, pretty::concat(rest)),
     ]))
+}
+
+/// Whether the step `next` must be separated from `previous` by a comma even when the sequence is
+/// broken onto lines: after a body-less function (`#'int`, `@#'int`) a following `{ … }` step would
+/// otherwise be read as that function's body — white space, newlines and comments may all sit
+/// between a function head and its body.
+fn needs_explicit_comma(previous: &Chain, next: &Chain) -> bool {
+    let starts_with_block =
+        next.match_pattern.is_none() && matches!(next.terms.first(), Some(Term::Block(_)));
+    starts_with_block
+        && previous
+            .terms
+            .last()
+            .is_some_and(|term| needs_explicit_pipe(term, &next.terms[0]))
 }
 
 /// Whether a sequence step renders across several lines as an *undelimited* pipeline, so it is set
